@@ -509,7 +509,10 @@ def run(ctx):
             for h in GROUPS[i + 1:]:
                 plans.append(("closure-%s+%s" % (g, h), [g, h], None, 4, False))
         plans.append(("depth3-all", GROUPS, 3, 8, False))
-    ctx.pmap(explore_sub, rotate(plans, ctx.seed))
+    # every plan is an explorer with its own workers: bound the product (outer x inner) by the machine
+    outer = max(1, min(len(plans), ctx.jobs // (3 if ctx.quick else 4)))
+    for r in pmap(explore_sub, rotate(plans, ctx.seed), outer, "C10 plans", always_fork=True):
+        ctx.acc.merge(r)
     ctx.acc.traces = ctx.acc.transitions   # every explored transition was executed on the real interpreter
     # trace validation: replay the shortest history per violation and a fixed set of histories in new interpreters
     model = PrivModel(GROUPS)
